@@ -66,10 +66,21 @@ const (
 	RFClosed = iota // os.ErrClosed, nothing read
 	RFEIO           // EIO, nothing read
 	RFShort         // half of the bytes, io.ErrUnexpectedEOF
+	RFEINTR         // EINTR in a *PathError, nothing read: an error that invites an unbounded retry loop
 	NumReadFaultKinds
 )
 
-var ReadFaultNames = []string{"closed", "eio", "short"}
+var ReadFaultNames = []string{"closed", "eio", "short", "eintr"}
+
+// LivelockPanic is raised by a SimReaderAt whose per-call read budget is
+// exhausted: the code under test keeps reading (typically retrying a failing
+// read) instead of returning. The harness turns it into a verdict; without the
+// budget the call would spin until the stall watchdog ends the shard.
+type LivelockPanic struct{ Reads int }
+
+func (l *LivelockPanic) Error() string {
+	return fmt.Sprintf("livelock: %d storage reads issued by one call without returning", l.Reads)
+}
 
 // ReadFault describes when a SimReaderAt fails: calls with index in
 // [From, From+Count) fail (Count<=0: every call from From on).
@@ -93,6 +104,23 @@ type SimReaderAt struct {
 	// FaultFn, when set, decides per call whether it fails (single-task runs
 	// only; used when several readers share one global fault plan)
 	FaultFn func(idx int) (fail bool, kind int)
+	// Budget, when > 0, bounds the reads issued since the last Mark()
+	Budget    int
+	sinceMark int
+}
+
+// Mark starts a new budget period (the harness calls it between API calls).
+//
+//go:norace
+func (r *SimReaderAt) Mark() { r.sinceMark = 0 }
+
+//go:norace
+func (r *SimReaderAt) overBudget() int {
+	r.sinceMark++
+	if r.Budget > 0 && r.sinceMark > r.Budget {
+		return r.sinceMark
+	}
+	return 0
 }
 
 func NewSimReaderAt(img []byte, sched *Sched) *SimReaderAt {
@@ -128,6 +156,9 @@ func (r *SimReaderAt) SetFault(f *ReadFault) { r.fault = f }
 
 func (r *SimReaderAt) ReadAt(p []byte, off int64) (int, error) {
 	idx, fail, kind := r.tick()
+	if n := r.overBudget(); n > 0 {
+		panic(&LivelockPanic{Reads: n})
+	}
 	if r.OnRead != nil {
 		r.OnRead(idx)
 	}
@@ -145,6 +176,8 @@ func (r *SimReaderAt) ReadAt(p []byte, off int64) (int, error) {
 			return 0, os.ErrClosed
 		case RFEIO:
 			return 0, syscall.EIO
+		case RFEINTR:
+			return 0, &os.PathError{Op: "read", Path: "simdisk", Err: syscall.EINTR}
 		default:
 			n := 0
 			if off >= 0 && off < int64(len(r.img)) {
